@@ -598,8 +598,10 @@ GCPX_ORI = {
     "rot30": Affine.rotation(30) * Affine.scale(1, -1),
     "axes-swapped": Affine(0, 1, 0, 1, 0, 0),
     "x-mirrored-y-up": Affine.scale(-1, 1),
-    "rot-60-mirrored": Affine.rotation(-60) * Affine.scale(-1, -1),
+    # the diagonal: x*y is constant on the corners of a rectangle turned by 45 degrees (rank-deficient bilinear fit, F02-10)
     "rot45": Affine.rotation(45) * Affine.scale(1, -1),
+    "rot-60-mirrored": Affine.rotation(-60) * Affine.scale(-1, -1),
+    "rot135-y-up": Affine.rotation(135),
 }
 GCPX_CRS = "EPSG:32633"
 
@@ -609,7 +611,7 @@ def gcpx_alphabets(tier):
     aspects = [(1, 1)] + [(q, 1) for q in ratios[1:]] + [(1, q) for q in ratios[1:]]
     pix = [(GCPX_SHORT * a, GCPX_SHORT * b) for a, b in aspects] + [(64, 1), (1, 64)]  # (W, H); single row / column
     npts = (3, 4, 6, 9, 12, 24) if tier == "quick" else tuple(GCPX_LAYOUT)
-    oris = tuple(GCPX_ORI)[:4] if tier == "quick" else tuple(GCPX_ORI)
+    oris = tuple(GCPX_ORI)[:5] if tier == "quick" else tuple(GCPX_ORI)
     return pix, aspects, npts, oris
 
 
@@ -684,11 +686,12 @@ def run_gcp_aspect(case):
     # largest non-affine displacement along each axis (as in the gcp slice), inside the control-point hull, for world
     # grids parallel to the axes (a polynomial in the world axes has no such bound on a rotated long thin cloud)
     tol_aff = max(1e-6, 1e-9 * max(W, H))
-    if not axis_parallel and max(ax, ay) > 50 * min(ax, ay):
-        # world cloud beyond 50:1 AND turned against the world axes: the world->pixel fit (monomials in the world axes)
-        # is conditioned ~1e10 and its rounding error grows with aspect^2.3, 4.5e-7 px at 500:1 against <= 7e-9 px
-        # everywhere else in this slice; held to 1e-4 px there so that the verdict does not hang on a factor 2
-        tol_aff *= 100
+    if not axis_parallel:
+        # world cloud of aspect q turned against the world axes: the world->pixel fit is a polynomial in the WORLD axes, whose
+        # higher monomials are collinear on such a cloud up to 1/q^2 - its condition number, and with it the rounding error of
+        # an exact fit, grows like q^2 (measured on the diagonal: 9e-8 px at 10:1, 3.6e-7 at 50:1, 3.8e-6 at 500:1; below
+        # 1e-8 px for every axis-parallel cloud).  Allowance (q/10)^2 beyond 10:1 so that no verdict hangs on a factor 3
+        tol_aff *= max(1.0, (max(ax, ay) / (10 * min(ax, ay))) ** 2)
     tol_inv = (tol_aff, tol_aff) if kind == "affine" else (0.05 * eps * W, 0.05 * eps * H)
 
     def wclose(g_, e_):
@@ -814,8 +817,8 @@ def main(ctx):
         "buffered(): documented rounding ceil((buffer - 0.1 px)/px) whole pixels per side",
         "gcp-aspect: pixel cloud, world cloud and pixel size each within 500:1; probes up to a quarter of the cloud outside the "
         "control points; pix2wld: 1e-9*(|coordinate| + pixel size) for every truth (all lie in the fitted class); wld2pix in original "
-        "pixels: max(1e-6, 1e-9*raster size) for affine control points (x100 for world clouds beyond 50:1 that are turned against "
-        "the world axes: conditioning of the fit), 5% of the non-affine displacement for bilinear/quadratic control points inside "
+        "pixels: max(1e-6, 1e-9*raster size) for affine control points (times (q/10)^2 for world clouds of aspect q > 10 that are "
+        "turned against the world axes: condition number of a fit in world-axis monomials), 5% of the non-affine displacement for bilinear/quadratic control points inside "
         "the hull on axis-parallel world grids (no bound is claimed for the world->pixel polynomial on rotated thin clouds: with "
         "4 control points 0.1% off affine on a 30 deg, 500:1 strip it is thousands of pixels off between the points)",
         "gcp-aspect resolution: relative 1e-6 or twice the world tolerance over the extent of the cloud along that pixel axis",
